@@ -20,6 +20,7 @@ import ScpiVerif.Drv.ParseRun
 import ScpiVerif.Drv.ErrStr
 import ScpiVerif.Drv.Expr
 import ScpiVerif.Drv.BufFmt
+import ScpiVerif.Drv.RoundTrip
 open ScpiVerif.Drv
 
 def dispatch (cfg : String) (inp : List String) (obs : List String) : Option Verdict :=
@@ -36,6 +37,7 @@ def dispatch (cfg : String) (inp : List String) (obs : List String) : Option Ver
   | some "E" => runErrStr cfg inp obs
   | some "X" => runExpr inp obs
   | some "F" => runBufFmt cfg inp obs
+  | some "Y" => runRoundTrip cfg inp obs
   | _ => none
 
 structure Stats where
